@@ -348,6 +348,17 @@ theorem C05_open_only (script : ElemScript) (sels : List SelReg) (evs : List Eve
   · have : e.ord = j := by rw [h3]; simp [mkOpen]
     exact ⟨name, dir, sc, matched, by rw [this]; exact h1, h2, by rw [this]; simpa using h3⟩
 
+/-- An `EndTag` token that reaches the dispatcher while no end-tag handler is active (this is what
+`handle_end_tag_hint`, `dispatcher.rs:533`, requests to stop content removal) changes nothing and
+invokes nobody — which is why the model need not represent that extra `NEXT_END_TAG` request. -/
+theorem C05_idle_end_tag_token (d : Dispatcher) (items : List (Item EndTagH)) (ord : Nat)
+    (h : d.endTag = mk items) (hz : ∀ it ∈ items, it.userCount = 0) :
+    d.handleEndTagToken ord = .ok (d, []) := by
+  have := removeTail_split items [] hz (by simp)
+  simp only [List.append_nil, List.reverse_nil, List.map_nil] at this
+  simp only [Dispatcher.handleEndTagToken, h, this, List.flatMap_nil]
+  cases d; simp_all
+
 /-! ## Non-vacuity -/
 
 section Examples
